@@ -4,12 +4,13 @@ from common import *  # H, RTPS_SHIM_FILES, ENV_INJECT, ENV_STUBS
 # ------------------------------------------------------------------------------- C03
 _rd = "rtps::reader::verif_harness_reader"
 _wp = "rtps::rtps_writer_proxy::verif_harness_wproxy"
+_fa = "rtps::fragment_assembler::verif_harness_frag"
 _sn = "structure::sequence_number::verif_harness_seqnum"
 PROP = {
     "title": "ACKNACKs are truthful",
     "design_ref": "DESIGN.md section 3, C03",
     "inject": dict(ENV_INJECT, **{"src/rtps/reader.rs": ["reader"], "src/rtps/rtps_writer_proxy.rs": ["wproxy"],
-                                  "src/structure/sequence_number.rs": ["seqnum"]}),
+                                  "src/structure/sequence_number.rs": ["seqnum"], "src/rtps/fragment_assembler.rs": ["frag"], "src/rtps/writer.rs": ["fragw"]}),
     "shim_files": RTPS_SHIM_FILES + ["src/structure/sequence_number.rs", "src/rtps/message.rs"],
     "cap": {"quick": 4, "thorough": 6},
     "sn_window": {"quick": 4, "thorough": 5},
@@ -23,6 +24,8 @@ PROP = {
         H("c03_from_base_and_set_small_s255", _sn, "last representable member", "B=7,S=255", tier="thorough"),
         H("c03_from_base_and_set_small_s256", _sn, "first member outside the window is dropped", "B=7,S=256"),
         H("c03_from_base_and_set_nonpositive_base", _sn, "a set base below 1 never results", "base in -3..0"),
+        H("c01_proxy_inductive_o0", _wp, "(shared with C01) what the reader believes it has: one DATA/GAP/GAP-range/HEARTBEAT.first step from ANY valid proxy state makes exactly the announced SNs known, frontier == lowest unknown SN — the state every ACKNACK is computed from", "window origin 0, width W"),
+        H("c05_missing_frags_f4_n9", _fa, "(shared with C05) NACKFRAG content: for any partially received sample missing_frags_for yields exactly the missing fragments", "f=4, n=9", timeout=900),
         H("c03_missing_seqnums_o0", _wp, "from ANY valid proxy state: missing_seqnums(first,last) == unknown SNs of [first,last], strictly increasing, no duplicates", "window origin 0, width W, CAP entries"),
         H("c03_missing_seqnums_o32", _wp, "same, window across 2^32", "origin 2^32-3"),
         H("c03_reader_hb_anystate", _rd, "real Reader, matched writer proxy in ANY valid state (symbolic frontier + out-of-order map), one HEARTBEAT(first,last,final): ACKNACK truthful", "SNs 0..W+1, CAP entries", tier="thorough", timeout=2400),
